@@ -177,6 +177,18 @@ PROPS = {
              "multiset, order when sorted, padding only at the end, never a null. distinct = (function, encoding, len, n valid, "
              "parameters)",
     ),
+    "C13": dict(
+        bin="c13",
+        quick=[("dbg", 1.0), ("rel", 1.0), ("miri", 0.6)],
+        thorough=[("dbg", 1.0), ("rel", 1.0), ("miri", 1.0), ("mirirel", 1.0), ("asan", 1.0)],
+        floors={"ok.shift": 500, "ok.vshift": 500, "ok.vdiff": 500, "ok.vpct_change": 500, "ok.ffill": 50, "ok.bfill": 50, "ok.fill": 30,
+                "ok.vclip": 100, "ok.vabs": 30, "clip_idempotent_ok": 50},
+        rule="len 0..N x 10 null patterns + random len<=60 (with zero bases); lags -len-3..=len+3 and i32::MIN/MAX; fill null / 0 / "
+             "random; bounds in every order relation incl. null and data-valued; f64 (NaN), Option<f64> and i32 element types; "
+             "view-based operations also on VecDeque and strided ArrayView1. Every result compared element by element (exact) with the "
+             "positional definition; clip idempotence / containment for lower<=upper. distinct = (function, type, len, parameters) "
+             "with a non-null element",
+    ),
 }
 
 for _k in list(PROPS):
